@@ -237,6 +237,37 @@ def _split_container_loops(fn, top, length_key, indef_key, env, mr):
         ists = [x for x in top[i + 1:] if isinstance(x, dict) and x.get("k") not in ("Null",) and not (x.get("k") == "Return" and x.get("e") is None)]
     else:
         return None
+    if len(ists) == 2 and ists[0].get("k") == "While" and ists[0].get("cond") is not None:
+        # `while (peek_type() != BREAK) BODY;  read_break();` - the stop code is looked for before every element and consumed
+        # after the loop: the same thing as the test-first loop
+        u2 = unwrap(ists[1])
+        cw = unwrap_all_casts(ists[0]["cond"])
+        if isinstance(u2, dict) and u2.get("k") == "MCall" and decoder_call(u2) == "read_break" and isinstance(cw, dict) and \
+                cw.get("k") == "Bin" and cw.get("op") == "!=":
+            sides = [unwrap_all_casts(cw["lhs"]), unwrap_all_casts(cw["rhs"])]
+            if any(isinstance(x, dict) and decoder_call(x) == "peek_type" for x in sides) and \
+                    any(isinstance(x, dict) and x.get("d") == "enumconst" and x.get("enum") == "CDNS::CborType" for x in sides):
+                test = {"k": "If", "l": ists[0].get("l"), "synthetic": True,
+                        "cond": {"k": "Bin", "op": "==", "t": "bool", "l": cw.get("l"), "lhs": cw["lhs"], "rhs": cw["rhs"]},
+                        "then": {"k": "Block", "l": ists[1].get("l"), "s": [ists[1], {"k": "Break", "l": ists[1].get("l")}]}}
+                b1w = [x for x in ir.stmts(L1.get("body")) if isinstance(x, dict) and x.get("k") != "Null"]
+                hdr_w = L1.get("k") == "For" and L1.get("inc") is not None
+                b2w = [x for x in ir.stmts(ists[0].get("body")) if isinstance(x, dict) and x.get("k") != "Null"]
+
+                def is_dec_w(n):
+                    u = unwrap(n)
+                    return isinstance(u, dict) and ((u.get("k") == "Un" and u.get("op") in ("post--", "pre--") and path_str(path(u["e"]) or ()) == length_key))
+                if not hdr_w and len([x for x in b1w if is_dec_w(x)]) != 1:
+                    mr.problems.append(("length", L1.get("l", 0), "length must be decremented exactly once per iteration of the counted loop"))
+                b1w = [x for x in b1w if not is_dec_w(x)]
+                if hdr_w and not is_dec_w(L1["inc"]):
+                    return None
+                if shape(b2w) != shape(b1w) or not b2w:
+                    return None
+                mr.loop = ists[0]
+                mr.split = (ifn, L1, ists[0])
+                return [test] + b2w
+        return None
     if len(ists) != 1 or ists[0].get("k") not in ("For", "While"):
         return None
     L2 = ists[0]
